@@ -120,7 +120,13 @@ class InterpBase:
                 self.notvals[a] = frozenset(self.notvals.get(a, ())) | {b}
         elif k == "isinst" and val:
             _, t, cname = atom
-            self.refined[t] = frozenset([obj(cname)])
+            h5map = {"ext:h5py.Group": h5("grp"), "ext:h5py.Dataset": h5("ds"), "ext:h5py.File": h5("file")}
+            if cname in h5map:
+                self.refined[t] = frozenset([h5map[cname]])
+            elif "|" in cname or cname.startswith(("ext:", "py:", "?:")):
+                pass            # a union / foreign type: keep what is known about the term
+            else:
+                self.refined[t] = frozenset([obj(cname)])
 
     def fresh(self, node):
         """deterministic id for an allocation / call site on this path: n-th occurrence at this source position"""
